@@ -1,4 +1,5 @@
 import Martian.ForkName
+import Martian.ForkNameBatch
 import Gen.Facts
 import Driver.Util
 
@@ -19,6 +20,11 @@ Ops (byte strings hex-encoded, `-` = empty):
   route top nodes s      -> nl | none | some fqid forkpos ch uq file   (nodes = `;`-separated `hexfqid:hexlist of fork names`)
   getfork names index    -> none | some i  getForkNew
   getforkold names index -> none | some i  getForkOld
+  routebatch top nodes names  -> `;`-separated, one per entry: nl | none | n,f,ch,uq,file     routeBatch (n, f = list positions)
+  creditbatch top nodes names -> `;`-separated, one per entry: nl | none | n,f,slot,uq,name   deliver
+       (nodes = `;`-separated `hexfqid:hexlist of fork names:chunk counts` (`,`-separated naturals, `.` = none);
+        slot = o | s | j | c<i>; uq = the uniquifier carried, `-` = none)
+  keylen k               -> <|fork_ ++ pathEscape k|> <|journalEnc of it|>
 -/
 namespace Driver.C11
 open Martian.ForkName Driver
@@ -47,8 +53,57 @@ def showOpt : Option Bytes → String
   | some b => hexOfBytes b
   | none => "-"
 
+def parseNats (s : String) : Option (List Nat) :=
+  if s == "." then some [] else (s.splitOn ",").mapM (·.toNat?)
+
+/-- nodes with (optional) chunk counts per fork -/
+def parseNodesC (s : String) : Option (List (NodeM × List Nat)) :=
+  if s == "." then some [] else (s.splitOn ";").mapM fun nd =>
+    match nd.splitOn ":" with
+    | [fq, fs] => do
+      let fq ← bytesOfHex fq
+      let fs ← parseHexList fs
+      pure ((⟨fq, fs⟩ : NodeM), [])
+    | [fq, fs, cs] => do
+      let fq ← bytesOfHex fq
+      let fs ← parseHexList fs
+      let cs ← parseNats cs
+      pure ((⟨fq, fs⟩ : NodeM), cs)
+    | _ => none
+
+def showSlot : Slot → String
+  | .own => "o"
+  | .split => "s"
+  | .join => "j"
+  | .chunk i => s!"c{i}"
+
 def handle (op : String) (args : List String) : Option String :=
   match op, args with
+  | "routebatch", [top, nodes, names] => do
+    let top ← bytesOfHex top
+    let nodes ← parseNodesC nodes
+    let names ← parseHexList names
+    let ns := nodes.map (·.1)
+    let rs := routeBatch top ns names
+    pure (";".intercalate ((names.zip rs).map fun (s, r) =>
+      if s.contains cNL then "nl" else
+      match r with
+      | none => "none"
+      | some (n, f, ch, uq, file) => s!"{n},{f},{showOpt ch},{showOpt uq},{hexOfBytes file}"))
+  | "creditbatch", [top, nodes, names] => do
+    let top ← bytesOfHex top
+    let nodes ← parseNodesC nodes
+    let names ← parseHexList names
+    let ns := nodes.map (·.1)
+    let nch := fun (n f : Nat) => ((nodes.getD n (⟨[], []⟩, [])).2).getD f 0
+    pure (";".intercalate (names.map fun s =>
+      if s.contains cNL then "nl" else
+      match deliver top ns nch s with
+      | none => "none"
+      | some d => s!"{d.owner.node},{d.owner.fork},{showSlot d.owner.slot},{hexOfBytes d.uniq},{hexOfBytes d.file}"))
+  | "keylen", [k] => do
+    let k ← bytesOfHex k
+    pure s!"{(mapForkDir k).length} {(journalEnc Gen.journalPairs (mapForkDir k)).length}"
   | "esc", [k] => do
     let k ← bytesOfHex k
     pure (hexOfBytes (pathEscape k))
